@@ -142,6 +142,8 @@ func checkC03(c *Ctx, r *Result, tier string) {
 	// ---- R03e -----------------------------------------------------------------------------------
 	checkErrorLoss(c, r, "R03e")
 	c03Stateless(c, r, gr)
+	c03DecimalLiterals(c, r)
+	c03AssertionZeroValues(c, r)
 }
 
 func c03Pratt(c *Ctx, r *Result, gr *Grammar, M, A, C, N int64) {
